@@ -176,7 +176,7 @@ example : ¬ Atomic (ompLoopPinned true (fun _ => false)) := by
   revert this
   decide
 
-/-- Fixed code (`fixes/C26-validate-before-mutation.patch`): atomic for every validate that does not
+/-- Fixed code (the fix commits 50629ec / ef452d1 in /repo and `fixes/C26-arrayreduction-tmp-after-validate.patch`): atomic for every validate that does not
     depend on the two declared symbols (it is called again by `super().apply`). -/
 theorem C26_OMPLoopTrans (reprod : Bool) (v : OmpState → Bool)
     (hv : ∀ s, v (ompDeclare reprod s) = v s) : Atomic (ompLoopFixed reprod v) := by
